@@ -10,25 +10,34 @@ CONSTANTS Budget,      \* calls per thread
           CallFns,     \* functions the programs may call
           MaxOpen,     \* bound on simultaneously + ever opened archives (ids) to keep the scope finite
           HashCap,     \* capacity given to created (writable) archives
-          PreOpen      \* archives already open in the initial state (0, 1 or 2)
+          PreOpen,     \* handles already issued in the initial state (0..5, see MCInit)
+          Rich         \* TRUE: the full argument classes (case generation); FALSE: the reduced ones (stage A)
 
 VARIABLE vbudget
+MCNextId(t) == vnext
 mcvars == <<vars, vbudget>>
 
 D1 == <<7, 8>>
 D2 == <<5>>
-Disk0 == [f \in ArchFiles |-> [x \in Names |-> IF x = "x" THEN (IF f = "A" THEN D1 ELSE D2) ELSE None]]
+D3 == [i \in 1..40 |-> i]
+Disk0 == [f \in ArchFiles |-> [x \in Names |->
+            IF f = "A" THEN (CASE x = "f0" -> D1 [] x = "f1" -> D2 [] x = "f2" -> D3 [] OTHER -> None)
+                       ELSE (IF x = "f0" THEN D2 ELSE None)]]
 
 \* PreOpen = 0: nothing open.  PreOpen = 1: handle 1 = "A" opened read-only by an earlier call.
 \* PreOpen = 2: additionally handle 2 = "B" created writable (empty, capacity HashCap).
+\* PreOpen = 5: as 4, and ids 5 (file), 6 (search), 7 (archive) were issued and closed again.
+\* PreOpen = 3: additionally handle 3 = file "f0" of archive 1, cursor at 1.  PreOpen = 4: and search handle 4 on 1.
 MCInit ==
-    /\ vdisk = (IF PreOpen = 2 THEN [Disk0 EXCEPT !["B"] = NoMap] ELSE Disk0)
-    /\ vcap = [f \in ArchFiles |-> IF PreOpen = 2 /\ f = "B" THEN HashCap ELSE 16]
-    /\ varch = [a \in 1..PreOpen |->
-                  IF a = 1 THEN [file |-> "A", mut |-> FALSE, sess |-> Disk0["A"], snap |-> Disk0["A"], cap |-> 16]
-                           ELSE [file |-> "B", mut |-> TRUE, sess |-> NoMap, snap |-> NoMap, cap |-> HashCap]]
-    /\ vfiles = <<>> /\ vfinds = <<>>
-    /\ vnext = PreOpen + 1
+    /\ vdisk = (IF PreOpen >= 2 THEN [Disk0 EXCEPT !["B"] = NoMap] ELSE Disk0)
+    /\ vcap = [f \in ArchFiles |-> IF PreOpen >= 2 /\ f = "B" THEN HashCap ELSE 16]
+    /\ vlist = [f \in ArchFiles |-> IF PreOpen >= 2 /\ f = "B" THEN <<LF>> ELSE ListOf(Disk0[f])]
+    /\ varch = [a \in 1..Min(PreOpen, 2) |->
+                  IF a = 1 THEN [file |-> "A", mut |-> FALSE, sess |-> Disk0["A"], snap |-> Disk0["A"], lst |-> ListOf(Disk0["A"]), cap |-> 16]
+                           ELSE [file |-> "B", mut |-> TRUE, sess |-> NoMap, snap |-> NoMap, lst |-> <<LF>>, cap |-> HashCap]]
+    /\ vfiles = (IF PreOpen >= 3 THEN (3 :> [arch |-> 1, name |-> "f0", data |-> D1, pos |-> 1]) ELSE <<>>)
+    /\ vfinds = (IF PreOpen >= 4 THEN (4 :> [arch |-> 1, list |-> ListOf(Disk0["A"]), idx |-> 1]) ELSE <<>>)
+    /\ vnext = (IF PreOpen = 5 THEN 8 ELSE PreOpen + 1)
     /\ vlock = [l \in Locks |-> Free]
     /\ vpc = [t \in Threads |-> "Idle"]
     /\ vfr = [t \in Threads |-> NullFrame]
@@ -38,26 +47,32 @@ MCInit ==
     /\ vbudget = [t \in Threads |-> Budget]
 
 Handles == 0..Min(vnext, MaxOpen + 1)
+ArgNames == Names \cap {"f0", "f1", "f2", "f3"}
 \* argument sets per function: <<fn, h, name, n1, n2, dat>>
 CallsOf(fn) ==
     CASE fn = "OpenArchive"    -> {<<fn, 0, f, 0, 0, <<>>>> : f \in ArchFiles \cup {"nofile"}}
-      [] fn = "CreateArchive"  -> {<<"OpenArchive", 0, f, 1, HashCap, <<>>>> : f \in {"B"}}
+      [] fn = "CreateArchive"  -> {<<"OpenArchive", 0, f, k, HashCap, <<>>>> : f \in {"B"}, k \in {1, 2}}
       [] fn = "CloseArchive"   -> {<<fn, h, "", 0, 0, <<>>>> : h \in Handles}
-      [] fn = "OpenFileEx"     -> {<<fn, h, x, 0, 0, <<>>>> : h \in Handles, x \in {"x"}}
+      [] fn = "OpenFileEx"     -> {<<fn, h, x, 0, 0, <<>>>> : h \in Handles, x \in (IF Rich THEN ArgNames ELSE {"f0"})}
       [] fn = "CloseFile"      -> {<<fn, h, "", 0, 0, <<>>>> : h \in Handles}
-      [] fn = "ReadFile"       -> {<<fn, h, "", req, 0, <<>>>> : h \in Handles, req \in {1, 3}}
+      [] fn = "ReadFile"       -> IF Rich THEN {<<fn, h, "", req, 0, <<>>>> : h \in Handles, req \in {0, 1, 2, 3, 39, 40, 41}}
+                                              \cup {<<fn, h, "", 2147483647, k, <<>>>> : h \in Handles, k \in {0, 1}}
+                                  ELSE {<<fn, h, "", req, 0, <<>>>> : h \in Handles, req \in {1, 3}}
       [] fn = "GetFileSize"    -> {<<fn, h, "", 0, 0, <<>>>> : h \in Handles}
-      [] fn = "SetFilePointer" -> {<<fn, h, "", off, m, <<>>>> : h \in Handles, off \in {-1, 1, 2147483647}, m \in {1, 2}}
+      [] fn = "SetFilePointer" -> IF Rich THEN {<<fn, h, "", off, m, <<>>>> : h \in Handles,
+                                                   off \in {0, 1, 2, 3, -1, -2, -3, 2147483647, -2147483647 - 1}, m \in {0, 1, 2, 7}}
+                                  ELSE {<<fn, h, "", off, m, <<>>>> : h \in Handles, off \in {-1, 1, 2147483647}, m \in {1, 2}}
       [] fn = "GetFileName"    -> {<<fn, h, "", 0, 0, <<>>>> : h \in Handles}
-      [] fn = "GetFileInfo"    -> {<<fn, h, "", c, 1, <<>>>> : h \in Handles, c \in {1, 2}}
-      [] fn = "HasFile"        -> {<<fn, h, x, 0, 0, <<>>>> : h \in Handles, x \in Names}
-      [] fn = "VerifyFile"     -> {<<fn, h, x, 0, 0, <<>>>> : h \in Handles, x \in {"x"}}
+      [] fn = "GetFileInfo"    -> IF Rich THEN {<<fn, h, "", c, b, <<>>>> : h \in Handles, c \in {1, 2, 7, 10, 99}, b \in {0, 3, 4, 7, 8, 16}}
+                                  ELSE {<<fn, h, "", c, 8, <<>>>> : h \in Handles, c \in {7, 10, 1}}
+      [] fn = "HasFile"        -> {<<fn, h, x, 0, 0, <<>>>> : h \in Handles, x \in ArgNames}
+      [] fn = "VerifyFile"     -> {<<fn, h, x, 0, 0, <<>>>> : h \in Handles, x \in {"f0"}}
       [] fn = "EnumFiles"      -> {<<fn, h, "", 0, 0, <<>>>> : h \in Handles}
-      [] fn = "GetArchiveName" -> {<<fn, h, "", 0, 1, <<>>>> : h \in Handles}
-      [] fn = "ExtractFile"    -> {<<fn, h, x, 0, 0, <<>>>> : h \in Handles, x \in {"x"}}
-      [] fn = "AddFile"        -> {<<fn, h, x, 0, 0, D2>> : h \in Handles, x \in Names}
-      [] fn = "RemoveFile"     -> {<<fn, h, x, 0, 0, <<>>>> : h \in Handles, x \in {"x"}}
-      [] fn = "RenameFile"     -> {<<fn, h, "x", 0, 0, <<"y">>>> : h \in Handles}
+      [] fn = "GetArchiveName" -> {<<fn, h, "", 0, b, <<>>>> : h \in Handles, b \in (IF Rich THEN {0, 1, 2, 3} ELSE {1})}
+      [] fn = "ExtractFile"    -> {<<fn, h, x, 0, 0, <<>>>> : h \in Handles, x \in {"f0"}}
+      [] fn = "AddFile"        -> {<<fn, h, x, k, 0, D2>> : h \in Handles, x \in ArgNames, k \in (IF Rich THEN {0, 1} ELSE {0})}
+      [] fn = "RemoveFile"     -> {<<fn, h, x, 0, 0, <<>>>> : h \in Handles, x \in (IF Rich THEN ArgNames ELSE {"f0"})}
+      [] fn = "RenameFile"     -> {<<fn, h, "f0", 0, 0, <<"f1">>>> : h \in Handles}
       [] fn = "FlushArchive"   -> {<<fn, h, "", k, 0, <<>>>> : h \in Handles, k \in {0, 1}}
       [] fn = "VerifyArchive"  -> {<<fn, h, "", k, 0, <<>>>> : h \in Handles, k \in {0, 1}}
       [] fn = "FindFirst"      -> {<<fn, h, "", 0, 0, <<>>>> : h \in Handles}
@@ -68,15 +83,101 @@ MCInvoke(t) ==
     /\ vbudget[t] > 0
     /\ \E fn \in CallFns : \E c \in CallsOf(fn) :
           /\ (c[1] = "OpenArchive" => vnext <= MaxOpen)
+          \* creating truncates the file: not while a handle on it is open (an OS-level matter)
+          /\ (c[1] = "OpenArchive" /\ c[4] # 0 => \A a \in DOMAIN varch : varch[a].file # c[3])
           /\ Invoke(t, c[1], c[2], c[3], c[4], c[5], c[6])
     /\ vbudget' = [vbudget EXCEPT ![t] = @ - 1]
 
-MCStep(t) == Step(t) /\ UNCHANGED vbudget
+\* one MC action per action of StormFfi (so that TLC's coverage and error traces name them)
+M_OA_Open(t) == OA_Open(t) /\ UNCHANGED vbudget
+M_OA_Id(t) == OA_Id(t) /\ UNCHANGED vbudget
+M_OA_Insert(t) == OA_Insert(t) /\ UNCHANGED vbudget
+M_CA_Null(t) == CA_Null(t) /\ UNCHANGED vbudget
+M_CA_PurgeFiles_Split(t) == CA_PurgeFiles_Split(t) /\ UNCHANGED vbudget
+M_CA_Remove_Split(t) == CA_Remove_Split(t) /\ UNCHANGED vbudget
+M_CA_Remove(t) == CA_Remove(t) /\ UNCHANGED vbudget
+M_CA_PurgeFiles(t) == CA_PurgeFiles(t) /\ UNCHANGED vbudget
+M_CA_PurgeFinds(t) == CA_PurgeFinds(t) /\ UNCHANGED vbudget
+M_OF_Null(t) == OF_Null(t) /\ UNCHANGED vbudget
+M_OF_Lookup(t) == OF_Lookup(t) /\ UNCHANGED vbudget
+M_OF_Id(t) == OF_Id(t) /\ UNCHANGED vbudget
+M_OF_Insert(t) == OF_Insert(t) /\ UNCHANGED vbudget
+M_CloseFile(t) == CloseFile(t) /\ UNCHANGED vbudget
+M_ReadFile(t) == ReadFile(t) /\ UNCHANGED vbudget
+M_GetFileSize(t) == GetFileSize(t) /\ UNCHANGED vbudget
+M_SetFilePointer(t) == SetFilePointer(t) /\ UNCHANGED vbudget
+M_GetFileName(t) == GetFileName(t) /\ UNCHANGED vbudget
+M_GI_File(t) == GI_File(t) /\ UNCHANGED vbudget
+M_GI_Archive(t) == GI_Archive(t) /\ UNCHANGED vbudget
+M_HasFile(t) == HasFile(t) /\ UNCHANGED vbudget
+M_VerifyFile(t) == VerifyFile(t) /\ UNCHANGED vbudget
+M_EnumFiles(t) == EnumFiles(t) /\ UNCHANGED vbudget
+M_GetArchiveName(t) == GetArchiveName(t) /\ UNCHANGED vbudget
+M_ExtractFile(t) == ExtractFile(t) /\ UNCHANGED vbudget
+M_AddFile(t) == AddFile(t) /\ UNCHANGED vbudget
+M_RemoveFile(t) == RemoveFile(t) /\ UNCHANGED vbudget
+M_RenameFile(t) == RenameFile(t) /\ UNCHANGED vbudget
+M_FlushArchive(t) == FlushArchive(t) /\ UNCHANGED vbudget
+M_VA_Null(t) == VA_Null(t) /\ UNCHANGED vbudget
+M_VA_Begin(t) == VA_Begin(t) /\ UNCHANGED vbudget
+M_VA_VerifyOne(t) == VA_VerifyOne(t) /\ UNCHANGED vbudget
+M_FF_Null(t) == FF_Null(t) /\ UNCHANGED vbudget
+M_FF_List(t) == FF_List(t) /\ UNCHANGED vbudget
+M_FF_Fill_Late(t) == FF_Fill_Late(t) /\ UNCHANGED vbudget
+M_FF_Id(t) == FF_Id(t) /\ UNCHANGED vbudget
+M_FF_Insert(t) == FF_Insert(t) /\ UNCHANGED vbudget
+M_FN_Null(t) == FN_Null(t) /\ UNCHANGED vbudget
+M_FN_Advance(t) == FN_Advance(t) /\ UNCHANGED vbudget
+M_FN_Fill(t) == FN_Fill(t) /\ UNCHANGED vbudget
+M_FindClose(t) == FindClose(t) /\ UNCHANGED vbudget
 
 Terminated == /\ \A t \in Threads : vpc[t] = "Idle" /\ vbudget[t] = 0
               /\ UNCHANGED mcvars
 
-MCNext == (\E t \in Threads : MCInvoke(t) \/ MCStep(t)) \/ Terminated
+MCNext ==
+    \/ \E t \in Threads : MCInvoke(t)
+    \/ \E t \in Threads : M_OA_Open(t)
+    \/ \E t \in Threads : M_OA_Id(t)
+    \/ \E t \in Threads : M_OA_Insert(t)
+    \/ \E t \in Threads : M_CA_Null(t)
+    \/ \E t \in Threads : M_CA_PurgeFiles_Split(t)
+    \/ \E t \in Threads : M_CA_Remove_Split(t)
+    \/ \E t \in Threads : M_CA_Remove(t)
+    \/ \E t \in Threads : M_CA_PurgeFiles(t)
+    \/ \E t \in Threads : M_CA_PurgeFinds(t)
+    \/ \E t \in Threads : M_OF_Null(t)
+    \/ \E t \in Threads : M_OF_Lookup(t)
+    \/ \E t \in Threads : M_OF_Id(t)
+    \/ \E t \in Threads : M_OF_Insert(t)
+    \/ \E t \in Threads : M_CloseFile(t)
+    \/ \E t \in Threads : M_ReadFile(t)
+    \/ \E t \in Threads : M_GetFileSize(t)
+    \/ \E t \in Threads : M_SetFilePointer(t)
+    \/ \E t \in Threads : M_GetFileName(t)
+    \/ \E t \in Threads : M_GI_File(t)
+    \/ \E t \in Threads : M_GI_Archive(t)
+    \/ \E t \in Threads : M_HasFile(t)
+    \/ \E t \in Threads : M_VerifyFile(t)
+    \/ \E t \in Threads : M_EnumFiles(t)
+    \/ \E t \in Threads : M_GetArchiveName(t)
+    \/ \E t \in Threads : M_ExtractFile(t)
+    \/ \E t \in Threads : M_AddFile(t)
+    \/ \E t \in Threads : M_RemoveFile(t)
+    \/ \E t \in Threads : M_RenameFile(t)
+    \/ \E t \in Threads : M_FlushArchive(t)
+    \/ \E t \in Threads : M_VA_Null(t)
+    \/ \E t \in Threads : M_VA_Begin(t)
+    \/ \E t \in Threads : M_VA_VerifyOne(t)
+    \/ \E t \in Threads : M_FF_Null(t)
+    \/ \E t \in Threads : M_FF_List(t)
+    \/ \E t \in Threads : M_FF_Fill_Late(t)
+    \/ \E t \in Threads : M_FF_Id(t)
+    \/ \E t \in Threads : M_FF_Insert(t)
+    \/ \E t \in Threads : M_FN_Null(t)
+    \/ \E t \in Threads : M_FN_Advance(t)
+    \/ \E t \in Threads : M_FN_Fill(t)
+    \/ \E t \in Threads : M_FindClose(t)
+    \/ Terminated
 
 \* ---- bounded-scope facts about the read arithmetic, checked on every ReadFile return
 ReadCopiesMin ==
@@ -86,4 +187,7 @@ InvalidReported ==
                           => (vret[t].ret \in {0, -1} /\ vlast[t] = "invalid_handle")
 
 Symm == Permutations(Threads)
+\* results of completed calls are observations, not state the machine reads (except vlast, which only
+\* SFileGetLastError reads): hidden from the fingerprint in the multi-thread configurations
+LockView == <<vdisk, vcap, vlist, varch, vfiles, vfinds, vnext, vlock, vpc, vfr, vclosed, vbudget>>
 =============================================================================
